@@ -49,6 +49,27 @@ file, so the equivalence theorem no longer compiles and the check reports a brok
               key), externs whose law is for a literal argument (compared at translation time), `live_laws` (facts about the
               live module an extern rests on, checked at translation time), `for` loops that return with state
 
+  flow        (entries with `flow`: the container loader of iwork.py / containers.py, the un-framer of iwafile.py)
+              `try: B / except C1 [as e]: H1 / except (C2, C3): H2 / … [/ else: E]` as a match on the PyM outcome of B: the handlers
+              are tried in order, `isinstance` against the classes as written (`exc_classes` of the entry for classes with
+              subclasses such as Warning / OSError: a predicate of the externals record; `Exception`: every PyExc), an exception
+              no handler names propagates, a bare `raise` re-raises the matched exception, `raise Y(…) from e` raises Y; a body
+              every path of which returns is the value returned; a body that changes the handler state may only be caught by
+              handlers that raise, unless it is one assignment (whatever raises is evaluated before the variable is rebound);
+              `with E as v:`; expression statements (calls for their exception / their effect on the state: `state_externs`);
+              `self.m(args)` of another translated method of the group (`pyparams` positionally, wrapped by the caller's
+              `arg_wrap`; the other parameters are the caller's variables of the same name; the callee's `state` rebinds them),
+              properties (`property`), a method that calls itself (`rec_fuel`: the recursion depth is the parameter `fuel`,
+              RecursionError at 0, loops take the method one level deeper as the parameter `rec_`); `opt_attrs` (attributes that
+              are unset at first: an Option, AttributeError while unset), `init` (what a fresh object has), `exprs` (an expression
+              the entry names as a whole), `transparent_attrs`, externs whose Lean name carries the index of the call site
+              (`{i}`), comprehension filters, `s.endswith((a, b))`, `math.ceil(a / n)`
+  bytes       bytes constants, `bytes(b)`, `a + b`, truth value, `b"".join(xs)`, `unpack("<I", b)[0]` / `struct.pack("<I", n)`
+              (PyT.unpackU32LE / packU32LE), `unpack(fmt, b)[0]` for the formats the entry names (`unpack`); `generator`: a
+              generator consumed as a whole is the list of what it yields; `opt_vars` (`x = None` then `x = value`: an Option),
+              `class_defaults` (the attributes of a local object kept as Optional variables: compared with the live class),
+              `find` (the function under another name after a harmless renaming)
+
 Every construct is translated to the operation of Py/Trans.lean / Py/Basic.lean that states its Python
 meaning; everything that can raise lives in `PyM = Except PyExc`.
 """
